@@ -279,6 +279,19 @@ fn c02c_file_key_path_witness() {
     std::mem::forget(b);
 }
 
+
+/// the format encrypts whole 32-bit words only; the 1-3 trailing bytes of a block stay as they are
+#[kani::proof]
+#[kani::unwind(8)]
+#[kani::stub(std::fmt::format, vio::fmt_stub)]
+fn c02c_trailing_bytes_witness() {
+    let b = ArchiveBuilder::new();
+    let mut d = [0x10u8, 0x20, 0x30, 0x40, 0x55];
+    b.encrypt_data(&mut d, 0x1234_5678);
+    assert!(d[4] == 0x55, "trailing bytes of an encrypted block differ from the format (which leaves them unencrypted)");
+    std::mem::forget(b);
+}
+
 #[kani::proof]
 #[kani::unwind(20)]
 #[kani::stub(std::fmt::format, vio::fmt_stub)]
